@@ -60,3 +60,52 @@ func VC_C06_same_type_name() {
 	verifAssert(!vDiverted((*v1.User).Load) && !vDiverted((*v2.User).Load), "C06.same-type-name.reset-restores")
 	verifReached("C06.same-type-name")
 }
+
+// Account: the namesake, in the mocking package, of v1.Account (same type name, same
+// unexported value-receiver method name)
+type Account struct{ ID int }
+
+func (a Account) fee(i int) int { return a.ID + i + 100 }
+
+func vC06OtherFee() interface{} { return v1.FeeFunc() }
+
+func vC06CbFee(a v1.Account, i int) int { return i + 8100 }
+
+// VC_C06_value_form_other_package: an unexported value-receiver method of a struct type
+// declared in another package, addressed through the value form Struct(T{}).ExportMethod:
+// the named type's method is mocked, the same-named method of the same-named type of the
+// mocking package is not; also when a Pkg override is pending.
+func VC_C06_value_form_other_package() {
+	vEnv()
+	other, local := vC06OtherFee(), interface{}(Account.fee)
+	vPristine(other)
+	vPristine(local)
+	verifApart(verifFuncCode(other), verifFuncCode(local), 32)
+	b := Create()
+	if verifBool("pkgOverride") {
+		b.Pkg("some/other/pkg")
+	}
+	panicked := false
+	func() {
+		defer func() {
+			if r := recover(); r != nil {
+				panicked = true
+			}
+		}()
+		b.Struct(v1.Account{}).ExportMethod("fee").Apply(vC06CbFee)
+	}()
+	verifAssert(!panicked, "C06.value-form.accepted")
+	verifAssert(vDiverted(other), "C06.value-form.named-types-method-mocked")
+	verifAssert(!vDiverted(local), "C06.value-form.namesake-untouched")
+	if vDiverted(other) {
+		f, ok := vInvoke(other, "C06.value-form").(func(v1.Account, int) int)
+		verifAssert(ok, "C06.value-form.installed-has-method-signature")
+		if ok {
+			x := verifInt("x")
+			verifAssert(f(v1.Account{ID: 5}, x) == x+8100, "C06.value-form.own-callback")
+		}
+	}
+	b.Reset()
+	verifAssert(!vDiverted(other) && !vDiverted(local), "C06.value-form.reset-restores")
+	verifReached("C06.value-form")
+}
